@@ -481,6 +481,35 @@ def c11(run):
                        distinct_nontrivial=st.get("obs", 0) - st.get("keys", 0))
 
 
+def c20(run):
+    binary = vlib.build()
+    quick = run.tier == "quick"
+    scs = []
+    # long histories by simulation (the machine is Session.tla)
+    for (ops, num, depth, name) in ([(12, 60, 14, "h12"), (30, 80, 32, "h30"), (50, 40, 52, "h50")] if quick else [(12, 600, 14, "h12"), (30, 1200, 32, "h30"), (50, 800, 52, "h50")]):
+        cfg = ("SPECIFICATION Spec\nCONSTANTS\n Tier = \"%s\"\n Seed = %d\n Mod = 1\n TickMs = 1000\n MaxOps = %d\nINVARIANTS EmitHist\nCHECK_DEADLOCK FALSE\n" % (run.tier, run.seed, ops))
+        got = vlib.generate(run, "Session", cfg, name, fam="C20", workers=1, timeout=1500, cap=num,
+                            simulate="num=%d" % num, depth=depth)
+        scs += got
+        log("Session.tla -simulate: %d histories of %d operations" % (len(got), ops))
+    chunks = max(1, min(vlib.NCPU // 2, len(scs) // 20))
+    traces = vlib.replay(run, binary, "session", scs, "se", chunks=chunks)
+    st = session_validate(run, traces, lambda clause, fam: ["C20"] if clause in ("Agree", "ReturnedResultsImmutable") else (["C13"] if clause == "ProcessDead" else []))
+    run.cov["samples"] = [{"history": s["cfg"]["hist"][:12]} for s in scs[:2]]
+    if st.get("obs", 0) == 0 or st.get("snaps", 0) == 0:
+        raise Infra("vacuous run")
+    return vlib.finish(run, "model_checking",
+                       rule=("TLC -simulate walks Session.tla (operations: execute one of 14 queries - native, failing with many-to-many, falling "
+                             "back, subquery - over 3 windows, plainly or with the context cancelled before/during execution; append samples, a "
+                             "new series, a staleness marker, a gap; close an earlier query) to histories of 12, 30 and 50 operations. Each is "
+                             "replayed on ONE engine and one growing storage: after every operation every earlier result is compared with its "
+                             "deep snapshot and every execution with that of a freshly constructed engine on the current data; SessionTrace.tla "
+                             "(memo single-valued per data version; ReturnedResultsImmutable) is validated by TLC. distinct_nontrivial = result "
+                             "re-checks + comparisons with a fresh engine."),
+                       assumptions=["random walks (TLC simulation mode), not exhaustive", "comparator classes (1e-9)"],
+                       distinct_nontrivial=st.get("snaps", 0) + st.get("obs", 0) - st.get("keys", 0))
+
+
 def c07(run):
     binary = vlib.build()
     mc_volcano(run)
@@ -504,4 +533,4 @@ def c07(run):
                        distinct_nontrivial=st.get("obs", 0) - st.get("keys", 0))
 
 
-RECIPES = {"C01": c01, "C07": c07, "C08": c08, "C09": c09, "C10": c10, "C11": c11, "C16": c16, "C18": c18, "C19": c19, "C02": c02, "C03": c03, "C04": c04, "C05": c05, "C06": c06}
+RECIPES = {"C01": c01, "C07": c07, "C08": c08, "C09": c09, "C10": c10, "C11": c11, "C20": c20, "C16": c16, "C18": c18, "C19": c19, "C02": c02, "C03": c03, "C04": c04, "C05": c05, "C06": c06}
